@@ -47,17 +47,23 @@ func ReplaceOffenderKeys(validators types.ValidatorsData) types.ValidatorsData {
 	posteriorState := blockchain.GetInstance().GetPosteriorStates()
 	offendersMark := posteriorState.GetPsiO()
 
-	for i, validator := range validators {
+	// Work on a copy: the caller passes the staging set ι of the prior state,
+	// which must stay as it is and whose backing array is shared with the
+	// pending set γ_k once an epoch has gone by.
+	replaced := make(types.ValidatorsData, len(validators))
+	copy(replaced, validators)
+
+	for i, validator := range replaced {
 		if ValidatorIsOffender(validator, offendersMark) {
 			// Replace the validator's keys with a null key
-			validators[i].Bandersnatch = types.BandersnatchPublic{}
-			validators[i].Ed25519 = types.Ed25519Public{}
-			validators[i].Bls = types.BlsPublic{}
-			validators[i].Metadata = types.ValidatorMetadata{}
+			replaced[i].Bandersnatch = types.BandersnatchPublic{}
+			replaced[i].Ed25519 = types.Ed25519Public{}
+			replaced[i].Bls = types.BlsPublic{}
+			replaced[i].Metadata = types.ValidatorMetadata{}
 		}
 	}
 
-	return validators
+	return replaced
 }
 
 // GetBandersnatchRingRootCommitment returns the root commitment of the
